@@ -68,13 +68,6 @@ Definition limit_wild_window (p : partition) : bool :=
   wf_limit_named_res (rootq p) && wf_limit_wild_res (rootq p) &&
   wf_limit_named_apps (rootq p) && wf_limit_wild_apps (rootq p).
 (* every unresolvable rule has a static path that starts with the letters root but not with the component root *)
-Definition rule_offroot (r : prule) : bool :=
-  match getLongestStaticPath true r with
-  | VOk (path, _) =>
-      hasPrefix path s_root &&
-      match splitOn c_dot (lower path) with first :: _ => negb (str_eqb first s_root) | [] => false end
-  | _ => false
-  end.
 Definition rule_offroot_window (p : partition) : bool :=
   forallb (fun r => resolvable (rootq p) r || rule_offroot r) (p_rules p).
 Definition rules_unbuildable (c : sconfig) : bool := existsb (fun p => negb (buildRules_ok (p_rules p))) c.
